@@ -109,6 +109,9 @@ class Recorder:
         self.snapshots = True
         self.extra = {}      # free per-run scratch (profiles)
         self.unraisable = []
+        self._prog_t = None
+        self._prog_seen = set()
+        self._prog_epoch = 0
 
     # -- identity -----------------------------------------------------
     def uid_of(self, obj, create=True, base=None):
@@ -141,15 +144,81 @@ class Recorder:
         st = e.__dict__.get('state')
         if st is None:
             return None
+        if self.extra.get('snap_cache'):
+            # opt-in (large structural runs): the state only changes when an
+            # update is applied, which invalidates the cache
+            c = self.extra.get('snap_cached')
+            if c is None:
+                c = self.extra['snap_cached'] = snap_value(st.get_value())
+            return c
         return snap_value(st.get_value())
+
+    # -- progress (for the hang budget) ----------------------------------
+    def progress(self, uid, kind):
+        """A scripted party was called back.  The first callback of a kind
+        for a party at a given simulated time counts as progress and resets
+        the backward-jump counter, so that the budget bounds the work the
+        engine does *between* two such events, however large the run."""
+        t = self.now()
+        if t != self._prog_t:
+            self._prog_t = t
+            self._prog_seen = set()
+        key = (uid, kind, self._prog_epoch)
+        if key not in self._prog_seen:
+            self._prog_seen.add(key)
+            self.jumps = 0
+
+    # -- where is a party right now -------------------------------------
+    def locate(self, obj):
+        """Current hierarchy path of a process instance (None if it is not in
+        the hierarchy).  Bookkeeping of the harness, re-derived from
+        engine.state after every applied update."""
+        if not self.extra.get('locate'):
+            return None
+        cache = self.extra.setdefault('loc_cache', {})
+        key = id(obj)
+        if key in cache:
+            return cache[key]
+        e = self.engine
+        st = e.__dict__.get('state') if e is not None else None
+        found = None
+        if st is not None:
+            for path, node in st.depth():
+                v = node.value
+                if v is obj or getattr(v, '_verif_wraps', None) is obj:
+                    found = tuple(path)
+                    break
+        cache[key] = found
+        return found
+
+    def idmap(self):
+        """path -> identity of the hierarchy node (frame condition on node
+        identity, C09)."""
+        e = self.engine
+        st = e.__dict__.get('state') if e is not None else None
+        if st is None:
+            return None
+        if self.extra.get('snap_cache'):
+            c = self.extra.get('ids_cached')
+            if c is None:
+                c = self.extra['ids_cached'] = {tuple(path): id(node) for path, node in st.depth()}
+            return c
+        return {tuple(path): id(node) for path, node in st.depth()}
 
     # -- log ------------------------------------------------------------
     def ev(self, kind, **kw):
+        if len(self.log) > 150000 and self.budget is not None:
+            # a run that keeps producing events without end is a hang too
+            self.budget_hit = True
+            self.budget = None
+            raise SimBudgetExceeded('event budget exceeded')
         kw['k'] = kind
         kw['seq'] = len(self.log)
         kw['op'] = self.op
         if 'T' not in kw:
             kw['T'] = self.now()
+        if kw.get('snap') is not None and self.extra.get('ids'):
+            kw['ids'] = self.idmap()
         self.log.append(kw)
         return kw
 
@@ -159,7 +228,7 @@ class Recorder:
         lines = []
         for e in self.log:
             line = repr(sorted((k, repr(canon(v))) for k, v in e.items()
-                               if k not in ('snap', 'view')))
+                               if k not in ('snap', 'view', 'ids')))
             h.update(line.encode())
             if dump:
                 lines.append(line)
@@ -179,6 +248,11 @@ REC = Recorder()
 def probe_updater(current, update):
     try:
         if REC.active:
+            REC.extra.pop('loc_cache', None)
+            REC.extra.pop('snap_cached', None)
+            REC.extra.pop('ids_cached', None)
+            REC._prog_epoch += 1
+            REC.jumps = 0
             REC.ev('APPLY', uid=update)
     except Exception:  # never raise from an updater
         pass
